@@ -40,11 +40,11 @@ Theorem C08_crash_at_any_point_first_segment :
 Proof. exact crash_recovery. Qed.
 Print Assumptions C08_crash_at_any_point_first_segment.
 
-(* The same at full strength: ANY history of puts, gets and sync ticks — any maxBytesPerFile (also smaller than one message),
+(* The same at full strength: ANY history of puts, gets, sync ticks and clean restarts (Close + NewDiskQueue) — any maxBytesPerFile (also smaller than one message),
    any syncEvery, messages below 2^31 bytes — so with segment roll-over, messages larger than a segment and removal of
    consumed segments.  Every file-system state the I/O loop passed through (after each segment write, fsync, metadata temp
-   write, metadata rename and segment removal) is reopened by NewDiskQueue without panic, and the reopened queue, drained
-   completely, delivers a contiguous run E[sr .. sw) of the enqueued messages, intact and in order, with sr <= the number
+   write, metadata rename — those of Close included — and segment removal) is reopened by NewDiskQueue without panic, and the
+   reopened queue, drained completely, delivers a contiguous run E[sr .. sw) of the enqueued messages, intact and in order, with sr <= the number
    handed to the consumer.  The proof carries, for every recorded state, an image (DQCrashSeg.img): the layout of the
    messages over the segment files that the state's metadata names — closed files complete, the write file possibly longer
    than the metadata says, later files ignored, the depth possibly stale — in one of two modes: the file of the metadata's
@@ -54,7 +54,7 @@ Print Assumptions C08_crash_at_any_point_first_segment.
    which is why at most one file can be missing. *)
 Theorem C08_crash_at_any_point_all_segments :
   forall c ops limit,
-    nr_small ops = true -> (length (puts ops) <= limit)%nat ->
+    smallops ops = true -> (length (puts ops) <= limit)%nat ->
     exists dfin kfin,
       snd (dq_run c (dq_open c fs_empty []) ops) = Some dfin /\ (kfin <= length (puts ops))%nat /\
       forall l f, In (l, f) (trace dfin) ->
@@ -62,7 +62,7 @@ Theorem C08_crash_at_any_point_all_segments :
           (sr <= sw)%nat /\ (sw <= length (puts ops))%nat /\ (sr <= kfin)%nat /\
           dq_open c f [] = Some d /\
           dq_drain c limit d = firstn (sw - sr) (skipn sr (puts ops)).
-Proof. exact crash_recovery_segments. Qed.
+Proof. exact crash_recovery_all. Qed.
 Print Assumptions C08_crash_at_any_point_all_segments.
 
 (* recovery from any single image, in either mode *)
@@ -77,8 +77,8 @@ Print Assumptions C08_recover_image.
    contains every kind of mutation, a segment removal among them *)
 Example C08_all_segments_nonvacuous :
   let c := {| c_max := 10; c_syncevery := 3 |} in
-  let ops := [Put [97;97;97]; Put [98;98;98;98;98;98;98;98;98;98;98;98]; Put [99]; Get; Get; SyncTick; Put [100]; Get; Get] in
-  nr_small ops = true /\
+  let ops := [Put [97;97;97]; Put [98;98;98;98;98;98;98;98;98;98;98;98]; Put [99]; Get; CloseReopen; Get; SyncTick; Put [100]; Get; Get] in
+  smallops ops = true /\
   match snd (dq_run c (dq_open c fs_empty []) ops) with
   | Some d => existsb (fun e => fst e =? L_seg_remove) (trace d) = true /\ (19 <=? length (trace d))%nat = true /\ 1 <=? readFileNum d = true
   | None => False
